@@ -1,6 +1,7 @@
 package refchain
 
 import (
+	"fmt"
 	"math/big"
 	"sort"
 )
@@ -216,4 +217,17 @@ func (c *Chain) UtxoAt(h Hash) (UTXO, bool) {
 		return nil, false
 	}
 	return u, true
+}
+
+// InvalidBlocks lists the blocks the reference found invalid while connecting them ("<hash> h=<height> <reason>"),
+// for witnesses.
+func (c *Chain) InvalidBlocks() []string {
+	var l []string
+	for _, n := range c.Nodes {
+		if n.Invalid && n.InvalidReason != "" {
+			l = append(l, fmt.Sprintf("%s h=%d %s", n.Hash, n.Height, n.InvalidReason))
+		}
+	}
+	sort.Strings(l)
+	return l
 }
